@@ -158,14 +158,15 @@ Step(st, lb) ==
          IF lb.it = "input" THEN GrowingEach(st, c, [x EXCEPT !.vals = <<>>], lb.vs, NoRet, Ident)
          ELSE Growing(st, c, lb.vs, NoRet)
 
-    [] lb.op \in {"insert1", "insert1rv", "emplace"} -> Growing(st, c, InsertSeq(s, lb.pos, <<a>>), IdxR(lb.pos))
+    \* emplaceF / emplaceBackF: the constructor argument is a reference to a MEMBER of own element number src
+    [] lb.op \in {"insert1", "insert1rv", "emplace", "emplaceF"} -> Growing(st, c, InsertSeq(s, lb.pos, <<a>>), IdxR(lb.pos))
     [] lb.op = "insertN"      -> Growing(st, c, InsertSeq(s, lb.pos, Rep(lb.n, a)), IdxR(lb.pos))
     [] lb.op = "insertRange"  ->
          IF lb.it = "input"
          THEN GrowingEach(st, c, x, lb.vs, IdxR(lb.pos), LAMBDA all : InsertSeq(s, lb.pos, lb.vs))
          ELSE Growing(st, c, InsertSeq(s, lb.pos, lb.vs), IdxR(lb.pos))
     [] lb.op = "insertIlist"  -> Growing(st, c, InsertSeq(s, lb.pos, lb.vs), IdxR(lb.pos))
-    [] lb.op = "emplaceBack"  -> Growing(st, c, Append(s, a), ValR(a))
+    [] lb.op \in {"emplaceBack", "emplaceBackF"} -> Growing(st, c, Append(s, a), ValR(a))
     [] lb.op \in {"pushBack", "pushBackRv"} -> Growing(st, c, Append(s, a), NoRet)
     [] lb.op = "popBack"      -> R(Upd(st, c, [x EXCEPT !.vals = SubSeq(s, 1, sz - 1)]), NoRet)
     [] lb.op = "popBackVal"   -> R(Upd(st, c, [x EXCEPT !.vals = SubSeq(s, 1, sz - 1)]), ValR(s[sz]))
@@ -234,14 +235,14 @@ Step(st, lb) ==
 -----------------------------------------------------------------------------
 (* Which labels are legal calls in a state (preconditions of the C++ API), within the bounds of a model.          *)
 
-MutOps1 == {"assignIlist", "assignN", "assignRange", "insert1", "insert1rv", "emplace", "insertN", "insertRange",
+MutOps1 == {"emplaceF", "emplaceBackF", "assignIlist", "assignN", "assignRange", "insert1", "insert1rv", "emplace", "insertN", "insertRange",
             "insertIlist", "emplaceBack", "pushBack", "pushBackRv", "popBack", "popBackVal", "erase1", "eraseRange",
             "resize", "resizeVal", "clear", "reserve", "shrinkToFit", "appendN", "appendNVal", "appendRange",
             "appendIlist", "eraseVal"}
 ObsOps1 == {"at", "index", "front", "back", "iterate", "relocate"}
 CtorOps1 == {"ctorDefault", "ctorCount", "ctorCountVal", "ctorRange", "ctorIlist"}
 BinSame == {"assignCopy", "assignMove", "swap", "eq", "ne", "lt", "le", "gt", "ge"}
-AliasOps == {"pushBack", "insert1", "insertN", "emplace", "emplaceBack", "resizeVal", "assignN", "appendNVal"}
+AliasOps == {"emplaceF", "emplaceBackF", "pushBack", "insert1", "insertN", "emplace", "emplaceBack", "resizeVal", "assignN", "appendNVal"}
 AllOps == MutOps1 \cup ObsOps1 \cup CtorOps1 \cup BinSame \cup {"ctorCopy", "ctorMove", "ctorFromVector", "destroy", "swap2"}
 
 \* Vals: value domain;  MaxLen: bound on the size;  MaxCnt: bound on counts;  Its: iterator kinds;
@@ -273,6 +274,8 @@ OpLabels(st, c, o, Vals, MaxLen, MaxCnt, Its, RLens) ==
       [] o = "assignRange"  -> {Lbl(o, c, 0, 0, 0, 0, 0, it, vs) : it \in Its, vs \in Ranges}
       [] o \in {"insert1", "emplace"} ->
            {Lbl(o, c, 0, p, 0, a[1], a[2], "", <<>>) : p \in {q \in 0..sz : Fits(sz + 1)}, a \in Srcs}
+      [] o = "emplaceF"     -> {Lbl(o, c, 0, p, 0, 0, j, "", <<>>) : p \in {q \in 0..sz : Fits(sz + 1)}, j \in 1..sz}
+      [] o = "emplaceBackF" -> {Lbl(o, c, 0, 0, 0, 0, j, "", <<>>) : j \in {i \in 1..sz : Fits(sz + 1)}}
       [] o = "insert1rv"    -> {Lbl(o, c, 0, p, 0, v, 0, "", <<>>) : p \in {q \in 0..sz : Fits(sz + 1)}, v \in Vals}
       [] o = "insertN"      -> {Lbl(o, c, 0, p, n, a[1], a[2], "", <<>>) : p \in 0..sz, n \in {m \in 0..MaxCnt : Fits(sz + m)},
                                                                          a \in Srcs}
